@@ -128,6 +128,10 @@ def _cmds(prog, entry, srcdir, store, root, var):
             cmds.append({"cmd": "eval", "entry": pname, "style": "eval", "options": {}})
             cmds.append({"cmd": "mutate", "module": modn, "var": pre["var"], "value": copy.deepcopy(_pyvalue(vv["kind"], vv["value"])),
                          "inplace": ip})
+            # the evaluation under the mutated value committed its paths to the store: evaluate once more under the
+            # restored value, so that a dds.load of one of those paths by the compared evaluation is served the same
+            # content as in the canonical run (what the store holds is an input of a load, not "environment")
+            cmds.append({"cmd": "eval", "entry": pname, "style": "eval", "options": {}})
         elif pre["op"] == "failed_eval":
             cmds.append({"cmd": "eval", "entry": pname, "style": "eval", "options": {},
                          "fail": {"at": pre["at"], "cls": pre["cls"]}})
